@@ -1,7 +1,7 @@
 #!/bin/bash
 # tools/runall.sh [quick|thorough] : every claimed check on /repo as it is, 4 at a time; prints one line per check.
 tier=${1:-quick}
-cd /verif
+cd "$(dirname "$0")/.."
 ids=$(python3 -c "import json;print(' '.join(c['property_id'] for c in json.load(open('MANIFEST.json'))['checks']))")
 ./check C07 $tier >/dev/null 2>&1   # builds the Coq project and the drivers once
 echo $ids | tr ' ' '\n' | xargs -P 4 -I{} sh -c "./check {} $tier 2>&1 | grep -E 'VIOLATION|quick:|thorough:|Error|Traceback' | cut -c1-260"
